@@ -76,6 +76,14 @@ func (mon) Plan(prop, tier string, seed int64) []drv.Shard {
 	case "C06", "C07":
 		add("enum", 0, false)
 		add("rand", nrand/parts, false)
+		{
+			p := parts
+			parts = 2
+			add("rush", 0, false, "GOMAXPROCS=1")
+			add("rush", 0, false, "GOMAXPROCS=2")
+			add("rush", 0, false)
+			parts = p
+		}
 		if thorough {
 			add("rand", nrand/parts/2, false, "GOMAXPROCS=2")
 			add("rand", nrand/parts/2, false, "GOMAXPROCS=4")
@@ -271,6 +279,54 @@ func holScenarios(seed int64) []Scenario {
 			}
 		}
 	}
+	// a history first: a burst through one lane is pushed and drained, then every *other* worker
+	// is pinned and a probe is pushed to a pinned lane - the only idle worker is the one that
+	// served the burst, and it must still pick up work of other lanes
+	for _, ls := range []int{2, 3, 4, 8} {
+		for _, qs := range []int{0, 1, 2, 5} {
+			for rep := 0; rep < 6; rep++ {
+				burstLane := []int{0, ls - 1}[rep%2]
+				var warm []PushSpec
+				for i := 0; i < 6+2*ls+rep; i++ {
+					warm = append(warm, PushSpec{Lane: burstLane, Task: TaskSpec{Kind: kinds[(i+rep)%2]}})
+				}
+				var pins []int
+				for l := 0; l < ls; l++ {
+					if l != burstLane {
+						pins = append(pins, l)
+					}
+				}
+				probes := []PushSpec{{Lane: pins[rep%len(pins)], Task: TaskSpec{Kind: "instant"}}, {Lane: pins[0], Task: TaskSpec{Kind: "yield"}}}
+				out = append(out, Scenario{LaneSize: ls, QueueSize: qs, TimeoutMs: 3600000, Warmup: warm, Pins: pins, Producers: [][]PushSpec{probes}, Cancel: CancelPlan{Kind: "none"}, PostPush: 1, Perturb: true})
+			}
+		}
+	}
+	for i := range out {
+		out[i].Seed = seed + int64(i)
+	}
+	return out
+}
+
+// rushScenarios (C06/C07): New, pushes, cancel and Wait with no settling in between, so that
+// Wait can be reached before the lane's goroutines have run for the first time.
+func rushScenarios(seed int64) []Scenario {
+	var out []Scenario
+	for rep := 0; rep < 12; rep++ {
+		for _, cfg := range configs {
+			ls, qs := cfg[0], cfg[1]
+			for nprod := 0; nprod <= 2; nprod++ {
+				var prods [][]PushSpec
+				for p := 0; p < nprod; p++ {
+					var pushes []PushSpec
+					for i := 0; i < 2+qs; i++ {
+						pushes = append(pushes, PushSpec{Lane: (i + p) % ls, Task: TaskSpec{Kind: kinds[(i+rep)%3]}})
+					}
+					prods = append(prods, pushes)
+				}
+				out = append(out, Scenario{LaneSize: ls, QueueSize: qs, TimeoutMs: 3600000, Producers: prods, Cancel: CancelPlan{Kind: "none"}, Rush: true, PostPush: rep % 2, Perturb: rep%3 == 0})
+			}
+		}
+	}
 	for i := range out {
 		out[i].Seed = seed + int64(i)
 	}
@@ -331,7 +387,14 @@ func shapeKey(s Scenario) string {
 			k[ps.Task.Kind]++
 		}
 	}
-	return fmt.Sprintf("L%dQ%d t%d pins%d prod%d n%d %v cancel=%s/%s#%d post%d", s.LaneSize, s.QueueSize, s.TimeoutMs, len(s.Pins), len(s.Producers), n, k, s.Cancel.Kind, s.Cancel.Point, s.Cancel.Hit, s.PostPush)
+	extra := ""
+	if len(s.Warmup) > 0 {
+		extra += fmt.Sprintf(" warm%d", len(s.Warmup))
+	}
+	if s.Rush {
+		extra += " rush"
+	}
+	return fmt.Sprintf("L%dQ%d t%d pins%d prod%d n%d %v cancel=%s/%s#%d post%d%s", s.LaneSize, s.QueueSize, s.TimeoutMs, len(s.Pins), len(s.Producers), n, k, s.Cancel.Kind, s.Cancel.Point, s.Cancel.Hit, s.PostPush, extra)
 }
 
 func (mn mon) Run(sh drv.Shard, c *drv.Ctx) {
@@ -343,6 +406,8 @@ func (mn mon) Run(sh drv.Shard, c *drv.Ctx) {
 		list = enumScenarios(sh.Seed)
 	case "hol":
 		list = holScenarios(sh.Seed)
+	case "rush":
+		list = rushScenarios(sh.Seed)
 	case "status":
 		list = statusScenarios(sh.Seed)
 	case "rand":
